@@ -17,11 +17,12 @@ PROP = 'C19'
 PARENT = '/svc'
 
 
-def member_data(name):
-  # member_1N is the same service instance as member_N after a restart: a new node carrying the same data
+def member_data(name, gen=0):
+  # member_1N is the same service instance as member_N after a restart: a new node carrying the same data.
+  # gen > 0 (scenarios with 'regen'): the name is being used again by another server - same node name, other host and port
   i = int(name.split('_')[-1]) % 10
-  return json.dumps({'serviceEndpoint': {'host': 'host-member_%d' % i, 'port': 7000 + i}, 'additionalEndpoints': {},
-                     'status': 'ALIVE'}).encode('utf-8')
+  return json.dumps({'serviceEndpoint': {'host': 'host-member_%d%s' % (i, '-gen%d' % gen if gen else ''), 'port': 7000 + i + 100 * gen},
+                     'additionalEndpoints': {}, 'status': 'ALIVE'}).encode('utf-8')
 
 
 def make_client_class():
@@ -178,8 +179,17 @@ class ZWorld(object):
       self.zk.tree[PARENT + '/' + m] = (member_data(m), self.zk.zxid)
     self.ss = None
 
+    self.created = dict((m, 1) for m in params.get('initial', ()))
+
     def mk():
-      self.ss = ServerSet(self.zk, PARENT, self.on_join, self.on_leave, lambda n: n.startswith('member_'))
+      if params.get('via_provider'):
+        # through the provider the balancers use (it creates the ServerSet itself)
+        from scales.loadbalancer.serverset import ZooKeeperServerSetProvider
+        self.prov = ZooKeeperServerSetProvider(self.zk, PARENT)
+        self.prov.Initialize(self.on_join, self.on_leave)
+        self.ss = self.prov._server_set
+      else:
+        self.ss = ServerSet(self.zk, PARENT, self.on_join, self.on_leave, lambda n: n.startswith('member_'))
     self.init_g = gevent.spawn(mk)
 
   def v(self, clause, msg, **sig):
@@ -241,7 +251,9 @@ class ZWorld(object):
     op = self.script.pop(0)
     zk = self.zk
     if op[0] == 'create':
-      zk.create(PARENT + '/' + op[1], member_data(op[1]))
+      gen = self.created.get(op[1], 0) if self.p.get('regen') else 0
+      self.created[op[1]] = self.created.get(op[1], 0) + 1
+      zk.create(PARENT + '/' + op[1], member_data(op[1], gen))
     elif op[0] == 'delete':
       zk.delete(PARENT + '/' + op[1])
     elif op[0] == 'delete_parent':
@@ -344,6 +356,9 @@ def scenarios(tier):
      {'initial': [M0, M1], 'script': [['read'], ['delete', M0], ['create', M2], ['read'], ['delete', M1]]}),
     ('a member restarts: its node is deleted and a new node with the same data appears',
      {'initial': [M0, M1], 'script': [['delete', M0], ['create', M10], ['delete', M1], ['create', M2]]}),
+    ('through ZooKeeperServerSetProvider; node names are used again by other servers (other host and port)',
+     {'via_provider': True, 'regen': True, 'initial': [M0], 'script': [['create', M1], ['delete', M0], ['create', M0], ['delete', M1], ['delete', M0],
+                                                                     ['delete_parent'], ['create_parent'], ['create', M0]]}),
     ('a consumer keeps a partly consumed iterator over the server set',
      {'initial': [M0, M1], 'script': [['iter1'], ['create', M2], ['delete', M0], ['create', M0], ['delete', M1]]}),
     ('second reader lists members concurrently', {'initial': [M0], 'script': [['read'], ['create', M1], ['delete', M0], ['read'], ['create', M0]]}),
